@@ -11,7 +11,7 @@ LINOP_ASSUME = ["bounds: atom catalogue and MaxStack/MaxLevel/MaxFlat of the the
 
 PROPS = {
     "C01": {"level": "model_checking", "engines": [LINOP, ("interp", "interp", "run"), ("conv", "conv", "run")], "rule": LINOP_RULE, "assumptions": LINOP_ASSUME, "trusted": TLC_BASE},
-    "C02": {"level": "model_checking", "engines": [LINOP, ("index_maps", "index_maps", "run"), ("prox", "prox", "run"), ("nufft", "nufft", "run")], "rule": LINOP_RULE, "assumptions": LINOP_ASSUME, "trusted": TLC_BASE},
+    "C02": {"level": "model_checking", "engines": [LINOP, ("index_maps", "index_maps", "run"), ("prox", "prox", "run"), ("nufft", "nufft", "run"), ("purity", "purity", "run")], "rule": LINOP_RULE, "assumptions": LINOP_ASSUME, "trusted": TLC_BASE},
     "C03": {"level": "model_checking", "engines": [LINOP], "rule": LINOP_RULE, "assumptions": LINOP_ASSUME, "trusted": TLC_BASE},
     "C04": {"level": "model_checking", "engines": [LINOP, ("interp", "interp", "run"), ("nufft", "nufft", "run")], "rule": LINOP_RULE, "assumptions": LINOP_ASSUME, "trusted": TLC_BASE},
     "C15": {"level": "model_checking", "engines": [("alg_protocol", "alg_protocol", "run"), ("cg", "cg", "run"), ("descent", "descent", "run"), ("espirit", "espirit", "run")],
@@ -91,6 +91,8 @@ PROPS = {
 HOOK_COMMITS = ["609775d"]
 
 ENGINES = [
+    {"name": "purity", "path": "harness/engines/purity.py + spec/PurityTrace.tla", "serves_properties": ["C02"],
+     "kind_free_text": "recorded calls of every public array function (argument CRCs before/after, result CRC, repeated call) validated by TLC against PurityTrace.tla"},
     {"name": "espirit", "path": "harness/engines/espirit.py + spec/PowerMethod.tla, spec/EspiritTrace.tla", "serves_properties": ["C17", "C15"],
      "kind_free_text": "TLC on exact integer power iteration + replay; EspiritCalib runs validated as traces (norms, crop, phase reference, eigenvalue range and monotonicity, recovery)"},
     {"name": "bloch", "path": "harness/engines/bloch.py + spec/Bloch.tla, CRat.tla, AccuracyTrace.tla", "serves_properties": ["C19"],
